@@ -1,9 +1,225 @@
 package edit
 
 import (
+	"encoding/json"
+	"fmt"
+	"hash/fnv"
+	"path"
+	"strings"
 	"time"
 
+	"oss.terrastruct.com/d2/d2ast"
+	"oss.terrastruct.com/d2/d2format"
+	"oss.terrastruct.com/d2/d2oracle"
+	"oss.terrastruct.com/d2/d2parser"
 	"verif/h/eng"
+	"verif/h/u"
 )
 
-func c36ImportPhase(p *eng.Solo, cov map[string]any, deadline time.Time) bool { return true }
+// ImportCase is the input of the "import" oracle (UpdateImport is text -> text).
+type ImportCase struct {
+	Text  string            `json:"text"`
+	Files map[string]string `json:"files"`
+	Old   string            `json:"old"`
+	New   *string           `json:"new"`
+}
+
+var importTemplates = []string{
+	"...@P\n",
+	"a: @P\n",
+	"a: L1 {\n  ...@P\n}\n",
+	"a: L1 {\n  b: @P\n}\n",
+	"...@P\nb: L2\np -> b: L3\n",
+	"a: @P\nc: @P\n",
+	"a.b: @P\n",
+	"layers: {\n  l: @P\n}\n",
+	"layers: {\n  l: {\n    ...@P\n  }\n}\n",
+	"a: L1\n\nscenarios: {\n  s: {\n    ...@P\n  }\n}\n",
+	"a: L1 {\n  ...@P\n  q: L2\n}\nb: {...@P}\n",
+	"vars: {\n  v: @P\n}\na: L1\n",
+	"classes: {\n  k: @S\n}\na: L1 {class: k}\n",
+	"a: L1 {\n  style: @S\n}\n",
+	"a -> b: L1 {\n  style: @S\n}\n",
+}
+
+// spellings of the import path in the text, with the file each one names
+var importSpellings = []struct{ spell, file string }{
+	{"x", "x.d2"}, {"./x", "x.d2"}, {"x.d2", "x.d2"}, {"d/x", "d/x.d2"}, {"\"d/x\"", "d/x.d2"}, {"./d/x", "d/x.d2"},
+}
+
+const importedMap = "p: L9\nq: L8\np -> q: L7\n"
+const importedStyle = "fill: red\n"
+
+func importFiles(file string) map[string]string {
+	return map[string]string{file: importedMap, strings.Replace(file, "x.d2", "sx.d2", 1): importedStyle}
+}
+
+func importCases() []ImportCase {
+	var out []ImportCase
+	for _, t := range importTemplates {
+		for _, sp := range importSpellings {
+			text := strings.ReplaceAll(t, "@P", "@"+sp.spell)
+			sty := strings.Replace(sp.spell, "x", "sx", 1)
+			text = strings.ReplaceAll(text, "@S", "@"+sty)
+			files := importFiles(sp.file)
+			// old paths: exactly the cleaned paths the text's imports carry (as UpdateImport compares them)
+			olds := importPathsOf(text)
+			if strings.HasPrefix(sp.file, "d/") {
+				olds = append(olds, "d/")
+			}
+			for _, old := range olds {
+				news := []*string{sp2("z"), sp2("e/z"), sp2("./z"), sp2(old), nil}
+				if strings.HasSuffix(old, "/") {
+					news = []*string{sp2("e/"), sp2("e/f/"), nil}
+				}
+				for _, n := range news {
+					out = append(out, ImportCase{Text: text, Files: files, Old: old, New: n})
+				}
+			}
+		}
+	}
+	return out
+}
+
+func sp2(s string) *string { return &s }
+
+func collectImports(m *d2ast.Map) []string {
+	var out []string
+	d2ast.Walk(m, func(n d2ast.Node) bool {
+		if u.IsNilNode(n) {
+			return false
+		}
+		if imp, ok := n.(*d2ast.Import); ok {
+			out = append(out, imp.PathWithPre())
+		}
+		return true
+	})
+	return out
+}
+
+func importPathsOf(text string) []string {
+	m, err := d2parser.Parse("index.d2", strings.NewReader(text), nil)
+	if err != nil || m == nil {
+		return nil
+	}
+	seen := map[string]bool{}
+	var out []string
+	for _, ip := range collectImports(m) {
+		if !seen[ip] {
+			seen[ip] = true
+			out = append(out, ip)
+		}
+	}
+	return out
+}
+
+// renamedFiles applies the file-system side of the import update.
+func renamedFiles(files map[string]string, old string, nw *string) map[string]string {
+	if nw == nil {
+		return files
+	}
+	out := map[string]string{}
+	for f, c := range files {
+		nf := f
+		if strings.HasSuffix(old, "/") {
+			if strings.HasPrefix(f, old) {
+				nf = path.Join(*nw, f[len(old):])
+			}
+		} else {
+			of := old
+			if path.Ext(of) != ".d2" {
+				of += ".d2"
+			}
+			if path.Clean(f) == path.Clean(of) {
+				nf = path.Clean(*nw)
+				if path.Ext(nf) != ".d2" {
+					nf += ".d2"
+				}
+			}
+		}
+		out[nf] = c
+	}
+	return out
+}
+
+func importOracle(in string) eng.Res {
+	var c ImportCase
+	if err := json.Unmarshal([]byte(in), &c); err != nil {
+		return eng.Bad("harness:bad-witness", err.Error())
+	}
+	if _, err := compileFS(c.Text, c.Files); err != nil {
+		return eng.OK("input-does-not-compile:"+compileErrClass(err), false)
+	}
+	if f1, err := u.Format(c.Text); err != nil {
+		return eng.OK("input-does-not-parse", false)
+	} else if f2, err := u.Format(f1); err != nil || f2 != f1 {
+		// only inputs on which the formatter itself is idempotent: anything else re-reports C03's findings
+		return eng.OK("formatter-not-idempotent-on-input", false)
+	}
+	var out string
+	var err error
+	if pan := catch(func() { out, err = d2oracle.UpdateImport(c.Text, c.Old, c.New) }); pan != "" {
+		return eng.OK("panic:"+pan, false)
+	}
+	if err != nil {
+		return eng.OK("refused", false)
+	}
+	kind := "rename"
+	if c.New == nil {
+		kind = "remove"
+	} else if strings.HasSuffix(c.Old, "/") {
+		kind = "rename-dir"
+	}
+	m, perr := d2parser.Parse("index.d2", strings.NewReader(out), nil)
+	if perr != nil {
+		return eng.Bad("import-update-result-does-not-parse:"+kind, fmt.Sprintf("UpdateImport(%q, %q, %s) = %q: %v", c.Text, c.Old, deref(c.New), out, perr))
+	}
+	if t2 := d2format.Format(m); t2 != out {
+		return eng.Bad("import-update-result-not-formatter-fixpoint:"+kind, fmt.Sprintf("UpdateImport(%q, %q, %s) = %q, formatter gives %q", c.Text, c.Old, deref(c.New), out, t2))
+	}
+	files2 := renamedFiles(c.Files, c.Old, c.New)
+	if _, cerr := compileFS(out, files2); cerr != nil {
+		return eng.Bad("import-update-result-does-not-compile:"+kind+":"+compileErrClass(cerr),
+			fmt.Sprintf("UpdateImport(%q, %q, %s) = %q does not compile against files %v: %v", c.Text, c.Old, deref(c.New), out, sortedKeys(files2), cerr))
+	}
+	return eng.OK("ok:"+kind+":"+fmt.Sprint(out != c.Text), out != c.Text)
+}
+
+func c36ImportPhase(p *eng.Solo, cov map[string]any, deadline time.Time) bool {
+	cases := importCases()
+	var evals, nontriv, panics int64
+	outc := map[uint64]struct{}{}
+	complete := true
+	for i, c := range cases {
+		if i&63 == 0 && time.Now().After(deadline) {
+			complete = false
+			break
+		}
+		b, _ := json.Marshal(c)
+		res := importOracle(string(b))
+		evals++
+		if res.Nontrivial {
+			nontriv++
+		}
+		if strings.HasPrefix(res.Outcome, "panic:") {
+			panics++
+		}
+		h := fnv.New64a()
+		h.Write([]byte(res.Outcome))
+		outc[h.Sum64()] = struct{}{}
+		if res.Fail != nil {
+			p.Fail(eng.Fail{Oracle: "import", Class: res.Fail.Class, Witness: string(b), Detail: res.Fail.Detail})
+		}
+	}
+	cov["import_update_cases"] = evals
+	cov["import_update_nontrivial"] = nontriv
+	cov["import_update_outcome_classes"] = len(outc)
+	cov["import_update_panics_observed"] = panics
+	cov["evaluations"] = cov["evaluations"].(int64) + evals
+	cov["distinct_nontrivial"] = cov["distinct_nontrivial"].(int64) + nontriv
+	if ph, ok := cov["phases"].([]map[string]any); ok {
+		cov["phases"] = append(ph, map[string]any{"phase": "import-update-product", "complete": complete, "evaluations": evals})
+	}
+	fmt.Printf("  phase %-44v complete=%v evals=%v\n", "import-update-product", complete, evals)
+	return complete
+}
